@@ -93,6 +93,9 @@ pub struct Field<'r, R: ReadValue> {
 
     /// Unconsumed field ID slot in the parent [`Fields`].
     unconsumed_field: &'r mut Option<u64>,
+
+    /// Nesting depth of the message this field belongs to.
+    depth: u32,
 }
 
 impl<'r, R: ReadValue> Field<'r, R> {
@@ -144,11 +147,17 @@ impl<'r, R: ReadValue> Field<'r, R> {
     ) -> Result<Fields<'_, impl ReadValue<Types = R::Types>>, ProtobufError> {
         match self.value {
             FieldValue::Len(len) => {
+                // Decoders recurse for each level of nesting. Limit the depth
+                // so that a small malicious input cannot overflow the stack.
+                if self.depth >= MAX_MESSAGE_DEPTH {
+                    return Err(self.error(ErrorKind::NestingTooDeep));
+                }
                 self.consume_field()?;
                 Ok(Fields {
                     reader: self.reader.sub_limit(len),
                     context,
                     unconsumed_field: None,
+                    depth: self.depth + 1,
                 })
             }
             _ => Err(self.error(ErrorKind::FieldTypeMismatch)),
@@ -396,7 +405,14 @@ pub struct Fields<'r, R: ReadValue> {
     /// before being dropped. This is used to report an error when attempting
     /// to read the next field.
     unconsumed_field: Option<u64>,
+
+    /// Nesting depth of this message. Zero for a top-level message.
+    depth: u32,
 }
+
+/// Maximum nesting depth of embedded messages. This matches the default
+/// recursion limit of the official Protocol Buffers implementations.
+const MAX_MESSAGE_DEPTH: u32 = 100;
 
 impl<'r, R: ReadValue> Fields<'r, R> {
     /// Read a message from `reader`.
@@ -408,6 +424,7 @@ impl<'r, R: ReadValue> Fields<'r, R> {
             reader: LimitReader::new(reader, u64::MAX),
             context,
             unconsumed_field: None,
+            depth: 0,
         }
     }
 
@@ -460,6 +477,7 @@ impl<'r, R: ReadValue> Fields<'r, R> {
             value,
             context: self.context,
             unconsumed_field: &mut self.unconsumed_field,
+            depth: self.depth,
         }))
     }
 }
